@@ -30,7 +30,7 @@ for i in range(1, 21):
             note = open(os.path.join(src, f"note{k}.txt")).read().strip() if os.path.exists(os.path.join(src, f"note{k}.txt")) else ""
             meta = {
                 "id": sid, "breaks_property": p, "round": ROUND,
-                "origin": "independent sub-agent given only the property text, the list of changes already known, and a scratch worktree",
+                "origin": os.environ.get("ORIGIN", "independent sub-agent given only the property text, the list of changes already known, and a scratch worktree"),
                 "what_it_needs_to_manifest": note,
                 "files_changed": r.get("changed_files", []),
                 "confirmation": {
